@@ -30,6 +30,9 @@ TILT = np.array([[20.0, 0, 0], [4.0, 18.0, 0], [3.0, 2.0, 19.0]])
 KINDS6 = ['(i) full tables, all term kinds', '(ii) no terms, no tables', '(iii) terms, no coefficient tables', '(iv) atom types but no pair table, no terms; parameterised patterns (CIF workflow)',
           '(v) coefficient tables but zero terms', '(vi) extra CIF columns, tables']
 INITS = ['%s, %s cell' % (k, c) for c in ('orthorhombic', 'tilted') for k in KINDS6]
+SCALE_INITS = ['(i) behind 1100 bonded He atoms: every term of the chain has a list index beyond 1024',
+               '(i) behind 900 unbonded He atoms interleaved with 30 lone O atoms: one call removes 32 atoms spread over 900 indices']
+INITS = INITS + SCALE_INITS
 STEP = np.array([1.0, 0.1, 0.0])
 OFFP = np.array([2.2, -3.0, 0.4])
 # (name, search elements, replacement elements, replacement coords (search frame), bonds, angles, dihedrals, impropers)
@@ -57,6 +60,30 @@ def coeff_only(n, cell):
     return a
 
 
+def with_filler(a, n_he, bonded, lone_o):
+    """the 6-atom chain `a` stored after a filler: n_he He atoms (bonded in sequence, with angles, using the chain's term
+    types 0) and, every 30th position, a lone O atom of the chain's O type; filler 8 A and more away from the chain"""
+    els = []; nt = len(a.atom_type_elements)
+    o_type = [i for i, e in enumerate(a.atom_type_elements) if e == 'O'][0]
+    for i in range(n_he):
+        els.append(o_type if (lone_o and i % 30 == 0) else nt)
+    nf = len(els)
+    pos = np.array([(0.5 + 0.45 * (i % 40), 9.0 + 0.45 * ((i // 40) % 20), 2.0 + 3.0 * (i // 800)) for i in range(nf)])
+    kw = dict(atom_types=els + [int(t) for t in a.atom_types], atom_type_elements=list(a.atom_type_elements) + ['He'], atom_type_labels=list(a.atom_type_labels) + ['He_f'],
+              atom_type_masses=list(a.atom_type_masses) + [4.0026], positions=np.vstack([pos, np.asarray(a.positions)]), charges=[0.0] * nf + list(a.charges), groups=[3] * nf + list(a.groups), cell=np.array(a.cell))
+    if len(a.pair_coeffs):
+        kw['pair_coeffs'] = list(a.pair_coeffs) + ['pc_He 0.0']
+    he = [i for i in range(nf) if els[i] == nt]
+    fill = dict(bond=[(he[i], he[i + 1]) for i in range(len(he) - 1)], angle=[(he[i], he[i + 1], he[i + 2]) for i in range(len(he) - 2)], dihedral=[], improper=[]) if bonded else {k: [] for k in KINDS}
+    for k in KINDS:
+        t = [tuple(int(x) + nf for x in row) for row in np.asarray(getattr(a, ATTR[k])).reshape(-1, ARITY[k])]
+        kw[ATTR[k]] = fill[k] + t
+        kw[k + '_types'] = [0] * len(fill[k]) + [int(x) for x in getattr(a, k + '_types')]
+        if len(getattr(a, k + '_type_coeffs')):
+            kw[k + '_type_coeffs'] = list(getattr(a, k + '_type_coeffs'))
+    return Atoms(**kw)
+
+
 def typed_pattern(pi, tabled):
     name, skey, rel, rpos, bonds, angles, dihedrals, impropers = PAIRS[pi]
     if not rel:
@@ -81,6 +108,10 @@ class Model(BaseModel):
         self.full_levels = self.depth
 
     def initial(self, i):
+        if i >= 2 * len(KINDS6):
+            j = i - 2 * len(KINDS6)
+            a = with_filler(mk(6, True, cell=TILT if j else 20.0), 1100 if j == 0 else 900, bonded=(j == 0), lone_o=(j == 1))
+            return dict(a=a, ref=RefStructure.of(a), tabled=True, ptabled=True, civ=False)
         cell = [20.0, TILT][i // len(KINDS6)]; k = i % len(KINDS6)
         a = [lambda: mk(6, True, cell=cell), lambda: mk(6, False, kinds=[], cell=cell), lambda: mk(6, False, cell=cell), lambda: mk(6, False, kinds=[], cell=cell),
              lambda: coeff_only(6, cell), lambda: mk(6, True, xf=True, cell=cell)][k]()
@@ -177,7 +208,7 @@ def model(tier):
 
 def plan(tier, seed):
     m = model(tier)
-    scs = [dict(init=i, first=op) for i in range(len(INITS)) for op in m.ops(None, 0)]
+    scs = [dict(init=i, first=op) for i in range(len(INITS)) for op in m.ops(None, 0) if i < 2 * len(KINDS6) or len(op) == 3]      # scale states: every pair x replace_all once (depth 1)
     scs.append(dict(example3=True))
     return dict(scenarios=scs, exhaustive=True, chunk=1, timeout=7200,
                 menus=dict(initial_states=INITS, pattern_pairs=[p[0] for p in PAIRS], replace_all=[0, 1], real='docs Example 3: uio66.cif, metal centre then linker (parameterised lmpdat patterns)'),
@@ -252,12 +283,12 @@ def run(sc, ctx):
             v = bad[1]
             out['violations'].append(viol(v.clause, v.sig, 'history %r from "%s": step %d: %s' % ([PAIRS[o[1]][0] + (' (replace_all)' if o[2] else '') + (' (fraction %g, sample answer %d)' % (o[3], o[4]) if len(o) > 3 else '') for o in sc['history']], INITS[sc['init']], bad[0], v.msg), sc))
         return out
-    seen, viols = SG.bfs(m, sc['init'], [sc['first']], m.depth, stats, max_violations=3)
+    seen, viols = SG.bfs(m, sc['init'], [sc['first']], 1 if sc['init'] >= 2 * len(KINDS6) else m.depth, stats, max_violations=3)
     out['hashes'] = seen; out['evals'] = stats['transitions']; out['compared'] = stats['transitions'] + stats['replays']
     out['violating_transitions'] = stats['violating_transitions']; out['max_depth'] = stats['max_depth']; out['disabled_transitions'] = stats.get('disabled', 0)
     for hist, v in viols:
         out['violations'].append(viol(v.clause, v.sig, 'history %r from "%s": %s' % ([PAIRS[o[1]][0] + (' (replace_all)' if o[2] else '') + (' (fraction %g, sample answer %d)' % (o[3], o[4]) if len(o) > 3 else '') for o in hist], INITS[sc['init']], v.msg), dict(init=sc['init'], history=hist)))
-    out['outcomes']['init=%d pair=%d' % (sc['init'] % len(KINDS6), sc['first'][1])] = 1
+    out['outcomes']['init=%s pair=%d' % (sc['init'] % len(KINDS6) if sc['init'] < 2 * len(KINDS6) else 'scale', sc['first'][1])] = 1
     out['nontrivial_hashes'] = set(seen)       # distinct states, counted once across scenarios
     if sc['init'] == 0 and sc['first'] == ['repl', 0, 0]:
         out['samples'] = [dict(initial=INITS[0], first=PAIRS[0][0], states_below=len(seen))]
